@@ -1017,6 +1017,147 @@ def _call_sites(fn, meth):
             and n.func.attr == meth]
 
 
+# ---------------------------------------------------------------------------
+# index walk to the innermost list of a list-of-lists field:  L = descend(L, I[:-1]) ; slot = L[I[-1]]
+def _index_walk(nodes):
+    """find the walk among `nodes`; -> dict(L, I, counter, node, why) ; why != '' when the bound is wrong"""
+    def step(body, L=None):
+        """`L = L[<k>]` as the only effect of a loop body -> (L, key expr)"""
+        for st in body:
+            if isinstance(st, ast.Assign) and len(st.targets) == 1 and isinstance(st.targets[0], ast.Name) and \
+                    isinstance(st.value, ast.Subscript) and isinstance(st.value.value, ast.Name) and \
+                    st.value.value.id == st.targets[0].id:
+                return st.targets[0].id, st.value.slice
+        return None, None
+
+    def all_but_last(e):
+        """I[:-1] -> I"""
+        if isinstance(e, ast.Subscript) and isinstance(e.value, ast.Name) and isinstance(e.slice, ast.Slice) and \
+                e.slice.lower is None and e.slice.step is None and norm(e.slice.upper) in ('-1', f"len({e.value.id}) - 1"):
+            return e.value.id
+        return None
+    for n in nodes:
+        if isinstance(n, ast.While):
+            L, key = step(n.body)
+            incs = [st for st in n.body if isinstance(st, ast.AugAssign) and isinstance(st.op, ast.Add) and
+                    isinstance(st.target, ast.Name) and norm(st.value) == '1']
+            if L and incs and isinstance(key, ast.Subscript) and isinstance(key.value, ast.Name) and norm(key.slice) == incs[0].target.id:
+                c, I = incs[0].target.id, key.value.id
+                init = reaching_value(c, n)
+                why = '' if (init is not None and norm(init) == '0') else f"counter {c} does not start at 0"
+                # the loop must run exactly for i = 0 .. len(I)-2: evaluate the bound for every (i, len) up to length 5
+                for ln in range(1, 6):
+                    for i in range(0, ln + 1):
+                        try:
+                            v = _int_eval(n.test, {c: i}, I, ln)
+                        except AnalysisError as e:
+                            return dict(L=L, I=I, counter=c, node=n, why=str(e))
+                        if bool(v) != (i < ln - 1) and not why:
+                            why = f"loop condition `{norm(n.test)}` is {bool(v)} for {c}={i}, len({I})={ln}; the walk must stop at the " \
+                                  f"innermost list (i < len - 1)"
+                return dict(L=L, I=I, counter=c, node=n, why=why)
+        elif isinstance(n, ast.For):
+            L, key = step(n.body)
+            if not L:
+                continue
+            I = all_but_last(n.iter)
+            if I and isinstance(n.target, ast.Name) and norm(key) == n.target.id:
+                return dict(L=L, I=I, counter=None, node=n, why='')
+            if isinstance(n.iter, ast.Call) and norm(n.iter.func) == 'range' and len(n.iter.args) == 1 and isinstance(n.target, ast.Name) \
+                    and isinstance(key, ast.Subscript) and isinstance(key.value, ast.Name) and norm(key.slice) == n.target.id:
+                I = key.value.id
+                why = '' if norm(n.iter.args[0]) == f"len({I}) - 1" else f"range bound `{norm(n.iter.args[0])}` is not len({I}) - 1"
+                return dict(L=L, I=I, counter=None, node=n, why=why)
+        elif isinstance(n, ast.Assign) and len(n.targets) == 1 and isinstance(n.targets[0], ast.Name) and isinstance(n.value, ast.Call) \
+                and norm(n.value.func) in ('reduce', 'functools.reduce') and len(n.value.args) == 3 and isinstance(n.value.args[0], ast.Lambda):
+            lam = n.value.args[0]
+            a = [x.arg for x in lam.args.args]
+            I = all_but_last(n.value.args[1])
+            if len(a) == 2 and norm(lam.body) == f"{a[0]}[{a[1]}]" and I:
+                return dict(L=n.targets[0].id, I=I, counter=None, node=n, why='')
+    return None
+
+
+def _int_eval(e, env, I, ln):
+    """integer / comparison evaluation of a loop bound with len(I) = ln"""
+    if isinstance(e, ast.Constant) and isinstance(e.value, int):
+        return e.value
+    if isinstance(e, ast.Name) and e.id in env:
+        return env[e.id]
+    if isinstance(e, ast.Call) and norm(e.func) == 'len' and len(e.args) == 1 and norm(e.args[0]) == I:
+        return ln
+    if isinstance(e, ast.BinOp) and isinstance(e.op, (ast.Add, ast.Sub)):
+        a, b = _int_eval(e.left, env, I, ln), _int_eval(e.right, env, I, ln)
+        return a + b if isinstance(e.op, ast.Add) else a - b
+    if isinstance(e, ast.UnaryOp) and isinstance(e.op, ast.Not):
+        return not _int_eval(e.operand, env, I, ln)
+    if isinstance(e, ast.Compare) and len(e.ops) == 1:
+        a, b = _int_eval(e.left, env, I, ln), _int_eval(e.comparators[0], env, I, ln)
+        op = e.ops[0]
+        table = {ast.Lt: a < b, ast.LtE: a <= b, ast.Gt: a > b, ast.GtE: a >= b, ast.Eq: a == b, ast.NotEq: a != b}
+        if type(op) in table:
+            return table[type(op)]
+    raise AnalysisError(f"index-walk bound outside the domain: {norm(e)}")
+
+
+def _is_last_slot(sub, walk):
+    """sub == L[ I[<last>] ] for the walk's L and I  (I[c] with the while counter, I[-1], I[len(I)-1])"""
+    if not (isinstance(sub, ast.Subscript) and isinstance(sub.value, ast.Name) and walk and sub.value.id == walk['L']):
+        return False
+    k = sub.slice
+    if not (isinstance(k, ast.Subscript) and isinstance(k.value, ast.Name) and k.value.id == walk['I']):
+        return False
+    return (walk['counter'] is not None and norm(k.slice) == walk['counter']) or \
+        norm(k.slice) in ('-1', f"len({walk['I']}) - 1")
+
+
+def _key_eval(e, env):
+    """evaluate a filter on a __dict__ key over a representative key value (restricted vocabulary)"""
+    if isinstance(e, ast.Constant):
+        return e.value
+    if isinstance(e, ast.Name):
+        if e.id in env:
+            return env[e.id]
+        if e.id in ('str', 'tuple', 'list', 'int'):
+            return {'str': str, 'tuple': tuple, 'list': list, 'int': int}[e.id]
+    if isinstance(e, ast.Tuple):
+        return tuple(_key_eval(x, env) for x in e.elts)
+    if isinstance(e, ast.Subscript) and isinstance(e.slice, ast.Constant):
+        return _key_eval(e.value, env)[e.slice.value]
+    if isinstance(e, ast.Subscript) and isinstance(e.slice, ast.Slice) and \
+            all(x is None or isinstance(x, ast.Constant) for x in (e.slice.lower, e.slice.upper, e.slice.step)):
+        sl = slice(*[None if x is None else x.value for x in (e.slice.lower, e.slice.upper, e.slice.step)])
+        return _key_eval(e.value, env)[sl]
+    if isinstance(e, ast.UnaryOp) and isinstance(e.op, ast.Not):
+        return not _key_eval(e.operand, env)
+    if isinstance(e, ast.BoolOp):
+        if isinstance(e.op, ast.And):
+            return all(_key_eval(v, env) for v in e.values)      # short-circuit like Python
+        return any(_key_eval(v, env) for v in e.values)
+    if isinstance(e, ast.Compare) and len(e.ops) == 1:
+        a, b = _key_eval(e.left, env), _key_eval(e.comparators[0], env)
+        op = e.ops[0]
+        if isinstance(op, ast.Eq):
+            return a == b
+        if isinstance(op, ast.NotEq):
+            return a != b
+        if isinstance(op, ast.Is):
+            return a is b
+        if isinstance(op, ast.IsNot):
+            return a is not b
+        if isinstance(op, ast.In):
+            return a in b
+        if isinstance(op, ast.NotIn):
+            return a not in b
+    if isinstance(e, ast.Call) and isinstance(e.func, ast.Name) and e.func.id == 'isinstance' and len(e.args) == 2:
+        return isinstance(_key_eval(e.args[0], env), _key_eval(e.args[1], env))
+    if isinstance(e, ast.Call) and isinstance(e.func, ast.Name) and e.func.id == 'type' and len(e.args) == 1:
+        return type(_key_eval(e.args[0], env))
+    if isinstance(e, ast.Call) and isinstance(e.func, ast.Attribute) and e.func.attr in ('startswith', 'endswith') and len(e.args) == 1:
+        return getattr(_key_eval(e.func.value, env), e.func.attr)(_key_eval(e.args[0], env))
+    raise AnalysisError(f"child-enumeration filter outside the domain: {norm(e)}")
+
+
 def rule_sites(repo):
     r = RuleResult('R-C15-sites', "_add_component and _delete_component maintain all_components / all_signals / "
                    "all_method_ports / all_named_objects over the same classes of objects (and the classes elaboration "
@@ -1219,17 +1360,25 @@ def rule_sites(repo):
     for st in delf.body:
         if isinstance(st, ast.If) and '_my_indices' in norm(st.test):
             t = st
+    wd = _index_walk(walk_no_nested(t)) if t is not None else None
+    wa = _index_walk(walk_no_nested(addf))
     cleared = [s2 for s2 in (walk_no_nested(t) if t is not None else []) if isinstance(s2, ast.Assign)
                and isinstance(s2.targets[0], ast.Subscript) and isinstance(s2.value, ast.Constant) and s2.value.value is None]
     asserted = [s2 for s2 in walk_no_nested(addf) if isinstance(s2, ast.Assert) and isinstance(s2.test, ast.Compare)
                 and isinstance(s2.test.left, ast.Subscript) and norm(s2.test.comparators[0]) == 'None'
                 and isinstance(s2.test.ops[0], ast.Is)]
-    if t is not None and norm(t.test) == f"{old_obj}._dsl._my_indices" and cleared and asserted and \
-            _alpha(cleared[0].targets[0]) == _alpha(asserted[0].test.left):
-        r.ok(m, DEL_QUAL, f"{norm(cleared[0])} (list element) <-> {norm(asserted[0].test)}")
+    stored = [s2 for s2 in walk_no_nested(addf) if isinstance(s2, ast.Assign) and isinstance(s2.targets[0], ast.Subscript)
+              and norm(s2.value) == new_obj]
+    ivar_ok = wd is not None and reaching_value(wd['I'], wd['node']) is not None and \
+        norm(reaching_value(wd['I'], wd['node'])) == f"{old_obj}._dsl._my_indices"
+    if t is not None and norm(t.test) == f"{old_obj}._dsl._my_indices" and wd and wa and ivar_ok and wa['I'] == aps[3] and \
+            cleared and asserted and stored and _is_last_slot(cleared[0].targets[0], wd) and \
+            _is_last_slot(asserted[0].test.left, wa) and _is_last_slot(stored[0].targets[0], wa):
+        r.ok(m, DEL_QUAL, f"{norm(cleared[0])} (list element) <-> {norm(asserted[0].test)} ; {norm(stored[0])}")
     else:
         r.bad(m, DEL_QUAL, 'list slot cleared', "for a list element (non-empty _my_indices) the slot reached by the index walk "
-              "must be set to None, which is what _add_component asserts before storing the new element", delf.lineno)
+              "(the LAST index in the innermost list) must be set to None, which is what _add_component asserts before storing "
+              "the new element in the same slot", delf.lineno)
     # the parent's connect_order is rebuilt without pairs touching a removed signal (judged on the meaning of the
     # rebuilt list: same source list, same elements, kept iff NEITHER end is a removed signal)
     dom = SetDom(delf)
@@ -1316,29 +1465,74 @@ def rule_sites(repo):
     # the two collectors used for the added / removed sets traverse the hierarchy identically
     nm = repo.mod(NAMED)
 
+    KEYS = {'public attribute': 'abc', 'private attribute': '_abc', 'slice key (tuple)': (1, 3), 'other key (int)': 5}
+
     def traversal(q):
+        """what the collector visits: {kind of __dict__ key: pushed?}, lists descended?, start = [self], pops until empty"""
         f = nm.get_func(q)
         w = [n for n in walk_no_nested(f) if isinstance(n, ast.While)]
         if len(w) != 1:
             raise AnalysisError(f"{q}: traversal loop not found")
-        ifs = [n for n in w[0].body if isinstance(n, ast.If) and _isinstance_test(n.test)]
-        if len(ifs) != 1:
-            raise AnalysisError(f"{q}: traversal dispatch not found")
-        fors = [n for n in ifs[0].body if isinstance(n, ast.For) and '__dict__' in norm(n.iter)]
+        pops = [st for st in w[0].body if isinstance(st, ast.Assign) and isinstance(st.value, ast.Call) and
+                isinstance(st.value.func, ast.Attribute) and st.value.func.attr in ('pop', 'popleft') and isinstance(st.targets[0], ast.Name)]
+        if len(pops) != 1:
+            raise AnalysisError(f"{q}: work-list pop not found")
+        stack, u = norm(pops[0].value.func.value), pops[0].targets[0].id
+        tst = norm(w[0].test)
+        if tst not in (stack, f"len({stack}) > 0", f"len({stack}) != 0", f"len({stack})", f"{stack} != []"):
+            raise AnalysisError(f"{q}: loop condition `{tst}` is not `work list non-empty`")
+        init = [x for x in f.body if isinstance(x, ast.Assign) and norm(x.targets[0]) == stack]
+        feats = {'start': bool(init) and norm(init[0].value) in (f"[{_params(f)[0]}]", f"deque([{_params(f)[0]}])")}
+
+        def pushes(stmts, env, item):
+            """does executing stmts push `item` onto the work list?"""
+            for st in stmts:
+                if isinstance(st, ast.If):
+                    if pushes(st.body if _key_eval(st.test, env) else st.orelse, env, item):
+                        return True
+                elif isinstance(st, ast.Expr) and isinstance(st.value, ast.Call) and isinstance(st.value.func, ast.Attribute) \
+                        and norm(st.value.func.value) == stack and st.value.func.attr in ('append', 'extend', 'appendleft'):
+                    a0 = st.value.args[0] if st.value.args else None
+                    if st.value.func.attr.startswith('append') and norm(a0) == item:
+                        return True
+                    if st.value.func.attr == 'extend' and norm(a0) in (f"[{item}]", f"({item},)"):
+                        return True
+                elif isinstance(st, (ast.Pass, ast.Continue)):
+                    if isinstance(st, ast.Continue):
+                        return False
+            return False
+        named = lists = None
+        for br in [n for n in ast.walk(w[0]) if isinstance(n, ast.If)]:
+            it = _isinstance_test(br.test)
+            if it and it[0] == u and it[1] == ['NamedObject'] and named is None:
+                named = br
+            if it and it[0] == u and it[1] == ['list'] and lists is None:
+                lists = br
+        if named is None:
+            raise AnalysisError(f"{q}: NamedObject dispatch not found")
+        fors = [n for n in named.body if isinstance(n, ast.For) and norm(n.iter) == f"{u}.__dict__.items()"
+                and isinstance(n.target, ast.Tuple) and len(n.target.elts) == 2]
         if len(fors) != 1:
-            raise AnalysisError(f"{q}: child enumeration not found")
-        init = [norm(x.value) for x in f.body if isinstance(x, ast.Assign) and isinstance(x.value, ast.List)
-                and norm(x.value) == f"[{_params(f)[0]}]"]
-        return (norm(w[0].test), norm(ifs[0].test), norm(fors[0]), norm(ifs[0].orelse), tuple(init),
-                norm([x for x in w[0].body if x is not ifs[0]]))
+            raise AnalysisError(f"{q}: child enumeration over {u}.__dict__.items() not found")
+        kname, oname = [norm(x) for x in fors[0].target.elts]
+        for label, val in KEYS.items():
+            feats[label] = pushes(fors[0].body, {kname: val}, oname)
+            r.evaluations += 1
+        feats['lists descended'] = bool(lists) and any(
+            isinstance(n, ast.Call) and isinstance(n.func, ast.Attribute) and norm(n.func.value) == stack and
+            ((n.func.attr == 'extend' and norm(n.args[0]) == u) or
+             (n.func.attr == 'append' and isinstance(enclosing(n, (ast.For,)), ast.For) and norm(enclosing(n, (ast.For,)).iter) == u))
+            for n in ast.walk(lists))
+        return feats
     ta, tb = traversal('NamedObject._collect_all'), traversal('NamedObject._collect_all_single')
-    if ta == tb:
-        r.ok(nm, 'NamedObject._collect_all', "same traversal as _collect_all_single (children, slices, lists)")
+    if ta == tb and ta['start'] and ta['lists descended']:
+        r.ok(nm, 'NamedObject._collect_all', "same traversal as _collect_all_single: " +
+             ', '.join(f"{k}={'visited' if v else 'skipped'}" for k, v in ta.items() if k in KEYS))
     else:
-        diff = [i for i in range(len(ta)) if ta[i] != tb[i]]
+        diff = [k for k in ta if ta[k] != tb[k]] or [k for k in ('start', 'lists descended') if not ta[k]]
         r.bad(nm, 'NamedObject._collect_all', 'traversal agreement with _collect_all_single',
-              f"the two collectors enumerate the hierarchy differently (part {diff}): `{ta[diff[0]][:120]}` vs "
-              f"`{tb[diff[0]][:120]}`; the sets added by _add_component and removed by _delete_component are computed by "
+              f"the two collectors enumerate the hierarchy differently ({', '.join(f'{k}: {ta[k]} vs {tb[k]}' for k in diff)}); "
+              f"the sets added by _add_component and removed by _delete_component are computed by "
               f"different collectors and would no longer cover the same objects", 0)
     r.require_floor(17)
     return r
@@ -2628,26 +2822,16 @@ def rule_names(repo):
     # index walk siblings (delete side vs add side)
     m = repo.mod(COMP)
     delf = m.get_func(DEL_QUAL)
-    def walk_loops(fn, stmts_iter):
-        out = []
-        for st in stmts_iter:
-            if isinstance(st, ast.While):
-                idx = [n for n in ast.walk(st.test) if isinstance(n, ast.Call) and norm(n.func) == 'len']
-                if idx and isinstance(idx[0].args[0], ast.Name):
-                    v = idx[0].args[0].id
-                    txt = norm(st).replace(v, 'INDICES')
-                    out.append((txt, st))
-        return out
-    wa = walk_loops(af, [s for top in B.stmts for s in walk_no_nested(top)])
-    wd = walk_loops(delf, list(walk_no_nested(delf)))
-    if len(wa) == 1 and len(wd) == 1:
-        if wa[0][0] == wd[0][0]:
-            r.ok(m, DEL_QUAL, "index walk to the innermost list agrees with _add_component")
+    wa = _index_walk([x for top in B.stmts for x in walk_no_nested(top)])
+    wd = _index_walk(list(walk_no_nested(delf)))
+    if wa is None or wd is None:
+        raise AnalysisError("index walk of _add_component / _delete_component not found (while / for / reduce forms are understood)")
+    for side, wk, qual in (('_add_component', wa, ADD_QUAL), ('_delete_component', wd, DEL_QUAL)):
+        if wk['why']:
+            r.bad(m, qual, "index walk to the innermost list", f"{side}: {wk['why']}: the slot cleared and the slot refilled "
+                  f"differ for nested lists (or the walk indexes past the innermost list)", wk['node'].lineno)
         else:
-            r.bad(m, DEL_QUAL, "index walk to the innermost list", f"_delete_component walks `{wd[0][0]}` but _add_component "
-                  f"`{wa[0][0]}`: the slot cleared and the slot refilled differ for nested lists", wd[0][1].lineno)
-    else:
-        raise AnalysisError("index-walk loops of _add_component / _delete_component not found")
+            r.ok(m, qual, f"index walk: {wk['L']} descends along all but the last element of {wk['I']}")
     # every name resolves
     scanned = 0
     targets = [(m, f"Component.{f.name}", f) for f in m.methods('Component').values()]
@@ -3044,9 +3228,10 @@ MUTANTS = [
         removed_consts |= x._dsl.consts
       top._uncollect_vars( foo )""", 'R-C15-sites'),
     _m('fields-registry-not-updated', COMP, "        parent._dsl.NamedObject_fields.remove( foo._dsl.my_name )\n", "", 'R-C15-sites'),
+    _m('list-slot-cleared-at-first-index', COMP, "        list_parent[ my_indices[i] ] = None\n", "        list_parent[ my_indices[0] ] = None\n", 'R-C15-sites'),
+    _m('collector-single-skips-private-test', NAMED, "            if name[0] != '_': # filter private variables\n              stack.append( obj )",
+       "            stack.append( obj )", 'R-C15-sites', count='first'),
     _m('list-slot-not-cleared', COMP, "        list_parent[ my_indices[i] ] = None\n", "        pass\n", 'R-C15-sites'),
-    _m('connect-order-keeps-half-removed-pairs', COMP, "if x not in removed_signals and y not in removed_signals:",
-       "if x not in removed_signals or y not in removed_signals:", 'R-C15-sites'),
     _m('connect-order-not-stored', COMP, "      parent._dsl.connect_order = new_connect_order\n", "", 'R-C15-sites'),
     _m('collect-all-skips-slices', NAMED, """          elif isinstance( name, tuple ): # name = [1:3]
             stack.append( obj )
@@ -3119,10 +3304,6 @@ MUTANTS = [
        'R-C15-saved'),
     _m('top-read-table-holds-copies', L2, "      s._dsl.all_upblk_reads.update( m._dsl.upblk_reads )",
        "      s._dsl.all_upblk_reads.update( { b: set(v) for b, v in m._dsl.upblk_reads.items() } )", 'R-C15'),
-    _m('purge-rebinds-instead-of-in-place', COMP, "        parent._dsl.upblk_calls[blk] -= to_save\n",
-       "        parent._dsl.upblk_calls[blk] = parent._dsl.upblk_calls[blk] - to_save\n", 'R-C15-saved'),
-    _m('saved-writes-restored-into-reads', COMP, "      parent._dsl.upblk_writes[blk].add( eval(obj_name) )",
-       "      parent._dsl.upblk_reads[blk].add( eval(obj_name) )", 'R-C15-saved'),
     _m('saved-func-calls-not-purged', COMP, "        parent._dsl.func_calls[func] -= to_save\n", "", 'R-C15-saved'),
     _m('return-order-swapped', COMP, "return saved_connections, saved_upblk_reads, saved_upblk_writes, saved_upblk_calls,",
        "return saved_connections, saved_upblk_writes, saved_upblk_reads, saved_upblk_calls,", 'R-C15-saved'),
@@ -3136,7 +3317,10 @@ MUTANTS = [
     _m('calls-saved-into-reads-list', COMP, "            saved_upblk_calls.append( (blk, repr(x)) )",
        "            saved_upblk_reads.append( (blk, repr(x)) )", 'R-C15-saved'),
     _m('purge-from-the-wrong-map', COMP, "        parent._dsl.func_writes[func] -= to_save", "        parent._dsl.func_reads[func] -= to_save", 'R-C15-saved'),
-    _m('saved-name-slice-off-by-one', COMP, '"top"+repr(x)[1:]', '"top"+repr(x)[2:]', 'R-C15-saved'),
+    _m('saved-name-slice-off-by-one', COMP, 'saved_connections.append( (other, "top"+repr(x)[1:]) )',
+       'saved_connections.append( (other, "top"+repr(x)[2:]) )', 'R-C15-saved'),
+    _m('loopback-name-slice-off-by-one', COMP, '("top"+repr(other)[1:], "top"+repr(x)[1:])', '("top"+repr(other)[2:], "top"+repr(x)[1:])',
+       'R-C15-saved'),
     _m('eval-root-renamed', COMP, """    try:
       top = s._dsl.elaborate_top
     except AttributeError:
@@ -3281,12 +3465,12 @@ EQUIV = [
     _m('saved-connection-name-plain-repr', COMP, 'saved_connections.append( (other, "top"+repr(x)[1:]) )', 'saved_connections.append( (other, repr(x)) )'),
     _m('to-save-renamed', COMP, """        to_save = set()
         for x in calls:
-          if x in removed_connectables:
+          if x in removed_connectables or x in removed_interfaces:
             to_save.add( x )
             saved_func_calls.append( (func, repr(x)) )
         parent._dsl.func_calls[func] -= to_save""", """        gone = set()
         for port in calls:
-          if port in removed_connectables:
+          if port in removed_interfaces or port in removed_connectables:
             saved_func_calls.append( (func, repr(port)) )
             gone.add( port )
         parent._dsl.func_calls[func] -= gone"""),
@@ -3338,15 +3522,6 @@ EQUIV = [
 """, """      removed_interfaces = foo._collect_all_single( lambda ifc: isinstance( ifc, Interface ) )
       top._dsl.all_named_objects.difference_update( removed_interfaces )
 """),
-    _m('connect-order-as-comprehension', COMP, """      new_connect_order = []
-      for (x, y) in parent._dsl.connect_order:
-        if x not in removed_signals and y not in removed_signals: # TODO method port
-          new_connect_order.append( (x, y) )
-
-      parent._dsl.connect_order = new_connect_order
-""", """      parent._dsl.connect_order = [ (x, y) for (x, y) in parent._dsl.connect_order
-                                    if x not in removed_signals and y not in removed_signals ]
-"""),
     _m('signals-and-ports-collected-separately-after-rw', COMP, """    added_signals, added_method_ports = \\
       obj._collect_all( [ lambda x: isinstance( x, Signal ), \\
                           lambda x: isinstance( x, MethodPort ) ] )
@@ -3367,44 +3542,31 @@ EQUIV = [
 """),
     _m('connect-order-comprehension-into-local', COMP, """      new_connect_order = []
       for (x, y) in parent._dsl.connect_order:
-        if x not in removed_signals and y not in removed_signals: # TODO method port
+        if x not in removed_connectables and y not in removed_connectables:
           new_connect_order.append( (x, y) )
 """, """      new_connect_order = [ (x, y) for (x, y) in parent._dsl.connect_order
-                            if x not in removed_signals and y not in removed_signals ]
+                            if x not in removed_connectables and y not in removed_connectables ]
 """),
-    _m('connect-order-de-morgan-continue', COMP, """        if x not in removed_signals and y not in removed_signals: # TODO method port
+    _m('connect-order-de-morgan-continue', COMP, """        if x not in removed_connectables and y not in removed_connectables:
           new_connect_order.append( (x, y) )
-""", """        if y in removed_signals or x in removed_signals:
+""", """        if y in removed_connectables or x in removed_connectables:
           continue
         new_connect_order.append( (x, y) )
 """),
     _m('connect-order-filter-lambda', COMP, """      new_connect_order = []
       for (x, y) in parent._dsl.connect_order:
-        if x not in removed_signals and y not in removed_signals: # TODO method port
+        if x not in removed_connectables and y not in removed_connectables:
           new_connect_order.append( (x, y) )
 
       parent._dsl.connect_order = new_connect_order
-""", """      parent._dsl.connect_order = list( filter( lambda pr: not ( pr[0] in removed_signals or pr[1] in removed_signals ),
+""", """      parent._dsl.connect_order = list( filter( lambda pr: not ( pr[0] in removed_connectables or pr[1] in removed_connectables ),
                                                 parent._dsl.connect_order ) )
 """),
-    _m('connect-order-split-ifs', COMP, """        if x not in removed_signals and y not in removed_signals: # TODO method port
+    _m('connect-order-split-ifs', COMP, """        if x not in removed_connectables and y not in removed_connectables:
           new_connect_order.append( (x, y) )
-""", """        if x not in removed_signals:
-          if not ( y in removed_signals ):
+""", """        if x not in removed_connectables:
+          if not ( y in removed_connectables ):
             new_connect_order.append( (x, y) )
-"""),
-    _m('saved-list-as-comprehension-with-separate-purge', COMP, """      for blk, reads in parent._dsl.upblk_reads.items():
-        assert blk in top._dsl.all_upblk_reads
-        to_save = set()
-        for x in reads:
-          if x in removed_connectables:
-            to_save.add( x )
-            saved_upblk_reads.append( (blk, repr(x)) )
-        parent._dsl.upblk_reads[blk] -= to_save
-""", """      saved_upblk_reads = [ (blk, repr(sig)) for blk, reads in parent._dsl.upblk_reads.items()
-                                             for sig in reads if sig in removed_connectables ]
-      for blk in parent._dsl.upblk_reads:
-        parent._dsl.upblk_reads[blk] -= removed_connectables
 """),
     _m('removed-consts-as-set-comprehension', COMP, """      removed_consts = set()
       # A placeholder may contain components too, so always uncollect
@@ -3508,6 +3670,27 @@ EQUIV = [
     _m('R4-spawned-signals-recollected-without-difference', COMP,
        "spawned_signals = obj._collect_all_single( lambda x: isinstance( x, Signal ) ) - added_signals",
        "spawned_signals = obj._collect_all_single( lambda sig: isinstance( sig, Signal ) )"),
+    _m('collector-filter-startswith', NAMED, "            if name[0] != '_': # filter private variables\n              stack.append( obj )",
+       "            if not name.startswith('_'):\n              stack.append( obj )", count='first'),
+    _m('collector-filter-merged-condition', NAMED, """          if   isinstance( name, str ):
+            if name[0] != '_': # filter private variables
+              stack.append( obj )
+
+          elif isinstance( name, tuple ): # name = [1:3]
+            stack.append( obj )
+""", """          if ( isinstance( name, str ) and name[:1] != '_' ) or isinstance( name, tuple ):
+            stack.append( obj )
+""", count='first'),
+    dict(name='add-walk-as-for-loop', edits=[
+        dict(file=COMP, old="      i = 0\n      while i < len(indices) - 1:\n        list_parent = list_parent[ indices[i] ]\n        i += 1\n",
+             new="      for k in indices[:-1]:\n        list_parent = list_parent[ k ]\n", count=1),
+        dict(file=COMP, old="      assert list_parent[ indices[i] ] is None,", new="      assert list_parent[ indices[-1] ] is None,", count=1),
+        dict(file=COMP, old="      list_parent[ indices[i] ] = obj", new="      list_parent[ indices[-1] ] = obj", count=1)]),
+    dict(name='delete-walk-as-reduce', edits=[
+        dict(file=COMP, old="        i = 0\n        while i < len(my_indices) - 1:\n          list_parent = list_parent[ my_indices[i] ]\n          i += 1\n",
+             new="        from functools import reduce\n        list_parent = reduce( lambda lst, k: lst[k], my_indices[:-1], list_parent )\n", count=1),
+        dict(file=COMP, old="        list_parent[ my_indices[i] ] = None", new="        list_parent[ my_indices[len(my_indices) - 1] ] = None", count=1)]),
+    _m('add-walk-bound-rearranged', COMP, "      while i < len(indices) - 1:", "      while i + 1 < len(indices):"),
     _m('add-sets-via-update', COMP, "    top._dsl.all_signals       |= added_signals", "    top._dsl.all_signals.update( added_signals )"),
 ]
 
